@@ -157,9 +157,16 @@ func check(id, tier string) int {
 		"coverage": rep.Coverage, "assumptions": rep.Assumptions, "wall_s": time.Since(start).Seconds(),
 		"violations": len(rep.Violations), "known_findings_matched": rep.Known,
 	}
-	os.MkdirAll("evidence", 0o755)
+	// a run against a deliberately changed tree (mutant / seeded change through the base overlay) never
+	// overwrites the evidence of the tree as it stands
+	evDir := "evidence"
+	if ov := os.Getenv("VERIF_BASE_OVERLAY"); ov != "" {
+		evDir = filepath.Join(".work", "evidence-changed-tree")
+		ev["base_overlay"] = ov
+	}
+	os.MkdirAll(evDir, 0o755)
 	b, _ := json.MarshalIndent(ev, "", " ")
-	os.WriteFile(filepath.Join("evidence", id+".json"), append(b, '\n'), 0o644)
+	os.WriteFile(filepath.Join(evDir, id+".json"), append(b, '\n'), 0o644)
 
 	for _, l := range rep.Known {
 		fmt.Fprintln(realStdout, l)
